@@ -24,7 +24,7 @@ def run_cases(cases, timeout=600):
                        stdout=subprocess.PIPE, stderr=subprocess.PIPE, timeout=timeout)
     if p.returncode != 0:
         raise ModelError('driver exit %d: %s' % (p.returncode, p.stderr.decode()[-500:]))
-    outs = [json.loads(l) for l in p.stdout.decode('utf-8').splitlines() if l.strip()]
+    outs = [json.loads(l.decode('utf-8')) for l in p.stdout.split(b'\n') if l.strip()]
     if len(outs) != len(cases):
         raise ModelError('driver answered %d of %d cases' % (len(outs), len(cases)))
     for i, o in enumerate(outs):
